@@ -11,14 +11,22 @@ Three independent pieces:
 """
 from __future__ import annotations
 
+import atexit
 import binascii
 import datetime as dt
+import hashlib
+import importlib
 import json
+import os
 import re
+import shutil
+import sys
+import tempfile
 from fractions import Fraction
 
 _INT = re.compile(r"^-?[0-9]+$")
 _NAT = re.compile(r"^[0-9]+$")
+_LOADED = re.compile(r"^\d+_-?\d+_(vars|__init__)$")
 VTS = ("float", "int", "bool", "date")
 DPS = ("month", "year", "eternity")
 SIS = ("dispatch", "divide")
@@ -119,6 +127,29 @@ def parse_op(tok):
     if f[0] == "M" and len(f) == 3 and _NAT.match(f[1]):
         m = parse_mod(f[2])
         return None if m is None else ("M", int(f[1]), m)
+    if f[0] == "T" and len(f) == 4 and _NAT.match(f[1]):
+        rs = []
+        if f[2] != "-":
+            for x in f[2].split("%"):
+                g = x.split("$")
+                if len(g) != 2 or g[0] == "":
+                    return None
+                mods = [] if g[1] == "-" else [parse_mod(y) for y in g[1].split("&")]
+                if any(m is None for m in mods):
+                    return None
+                rs.append((g[0], mods))
+        es = []
+        if f[3] != "-":
+            for x in f[3].split("%"):
+                g = x.split("$")
+                if len(g) != 3 or g[0] == "":
+                    return None
+                cds = [] if g[1] == "-" else [parse_classdef(y) for y in g[1].split(";")]
+                ps = parse_params(g[2])
+                if any(c is None for c in cds) or ps is None:
+                    return None
+                es.append((g[0], cds, ps))
+        return ("T", int(f[1]), rs, es)
     return None
 
 
@@ -127,6 +158,11 @@ def fmt_op(op) -> str:
         return f"C!{op[1]}"
     if op[0] == "R":
         return f"R!{op[1]}!" + ("&".join(fmt_mod(m) for m in op[2]) or "-")
+    if op[0] == "T":
+        rs = "%".join(n + "$" + ("&".join(fmt_mod(m) for m in mods) or "-") for n, mods in op[2]) or "-"
+        es = "%".join(n + "$" + (";".join(fmt_classdef(c) for c in cds) or "-") + "$" + fmt_params(ps)
+                      for n, cds, ps in op[3]) or "-"
+        return f"T!{op[1]}!{rs}!{es}"
     return f"M!{op[1]}!{fmt_mod(op[2])}"
 
 
@@ -255,33 +291,68 @@ def formula_attr_names(formulas):
 # the real objects
 
 
-class Real:
-    """the history replayed on the real API"""
+_ROOT_PID = os.getpid()          # the check's own process: pool workers are forked from it
 
-    def __init__(self, spec):
-        from openfisca_core import entities, holders, periods, taxbenefitsystems, variables
-        from openfisca_core.parameters import ParameterNode
-        self.spec = spec
-        self.fdefs = spec["fdefs"]
+
+def tmp_root() -> str:
+    """a directory on sys.path, shared by the workers of one run, for the generated reform modules
+    and extension packages (the test runner takes reforms by dotted path and extensions by package
+    name); removed when the run ends"""
+    d = os.path.join(tempfile.gettempdir(), f"ofvc14_{_ROOT_PID}")
+    os.makedirs(d, exist_ok=True)
+    if d not in sys.path:
+        sys.path.append(d)
+    return d
+
+
+@atexit.register
+def _remove_tmp_root():
+    if os.getpid() == _ROOT_PID:
+        shutil.rmtree(os.path.join(tempfile.gettempdir(), f"ofvc14_{_ROOT_PID}"), ignore_errors=True)
+
+
+def _publish(name: str, files: dict) -> None:
+    """write a module (`name.py`) or a package (directory) atomically, once"""
+    root = tmp_root()
+    final = os.path.join(root, name)
+    if os.path.exists(final) or os.path.exists(final + ".py"):
+        return
+    if list(files) == ["__module__"]:
+        tmp = os.path.join(root, f".{name}.{os.getpid()}.tmp")
+        with open(tmp, "w") as f:
+            f.write(files["__module__"])
+        os.replace(tmp, final + ".py")
+    else:
+        tmp = tempfile.mkdtemp(prefix=".pkg", dir=root)
+        for rel, txt in files.items():
+            path = os.path.join(tmp, rel)
+            os.makedirs(os.path.dirname(path), exist_ok=True)
+            with open(path, "w") as f:
+                f.write(txt)
+        try:
+            os.rename(tmp, final)
+        except OSError:           # another worker was first
+            shutil.rmtree(tmp, ignore_errors=True)
+    importlib.invalidate_caches()
+
+
+class Ctx:
+    """what is needed to turn class definitions and modifications into real objects"""
+
+    def __init__(self, fdefs, ent_keys):
+        from openfisca_core import entities, holders, periods, variables
+        self.fdefs = {int(k): v for k, v in fdefs.items()}
+        self.ent_keys = list(ent_keys)
         self.v = variables
         self.periods = periods
         self.si = {"dispatch": holders.set_input_dispatch_by_period, "divide": holders.set_input_divide_by_period}
         self.protos = {}
-        ents = []
-        for i, k in enumerate(spec["ents"]):
+        for i, k in enumerate(ent_keys):
             if i == 0:
                 e = entities.Entity(k, k + "s", "", "")
             else:
                 e = entities.GroupEntity(k, k + "s", "", "", roles=[{"key": "member", "plural": "members"}])
             self.protos[k] = e
-            ents.append(e)
-        base = taxbenefitsystems.TaxBenefitSystem(ents)
-        data = {n: {"values": {dt.date.fromordinal(d).isoformat(): {"value": None if v is None else value_of_tok(v)}
-                               for d, v in items}} for n, items in spec["params"]}
-        base.parameters = ParameterNode("", data=data)
-        for cd in spec["vars"]:
-            base.add_variable(self.make_class(cd))
-        self.systems = [base]
 
     # -- classes and formulas
 
@@ -342,6 +413,9 @@ class Real:
         raise ValueError(f"bad expression {e!r}")
 
     def make_class(self, cd):
+        return type(cd["name"], (self.v.Variable,), self.class_attrs(cd))
+
+    def class_attrs(self, cd):
         import datetime
         from openfisca_core.periods import DateUnit
         attrs = {}
@@ -359,7 +433,7 @@ class Real:
             attrs["set_input"] = self.si[cd["si"]]
         for an, fid in formula_attr_names(cd["formulas"]):
             attrs[an] = self.make_formula(fid)
-        return type(cd["name"], (self.v.Variable,), attrs)
+        return attrs
 
     # -- operations
 
@@ -391,6 +465,61 @@ class Real:
             else:
                 modifier(t.parameters)
 
+    # -- generated code for the test runner
+
+    def _embed(self) -> str:
+        return f"_CTX = _su.Ctx(_su.unhexjson({hexjson({str(k): v for k, v in self.fdefs.items()})!r}), {self.ent_keys!r})\n"
+
+    def reform_path(self, name, mods) -> str:
+        """a module defining a Reform whose apply() performs `mods`; its dotted path"""
+        payload = hexjson([name, mods])
+        mod = "ofvc14r_" + hashlib.sha1((payload + self._embed()).encode()).hexdigest()[:16]
+        _publish(mod, {"__module__": (
+            "from openfisca_core.reforms import Reform\nfrom ofverif import sysutil as _su\n" + self._embed()
+            + f"_MODS = _su.unhexjson({payload!r})[1]\n\n\n"
+            "class R(Reform):\n    def apply(self):\n        for m in _MODS:\n            _CTX.apply_mod(self, m)\n")})
+        return mod + ".R"
+
+    def ext_package(self, name, cds, params) -> str:
+        """an extension package: one file of variable classes, a `parameters` directory"""
+        payload = hexjson([name, cds, params])
+        pkg = "ofvc14x_" + hashlib.sha1((payload + self._embed()).encode()).hexdigest()[:16]
+        src = "from openfisca_core.variables import Variable\nfrom ofverif import sysutil as _su\n" + self._embed()
+        for cd in cds:
+            src += f"\n\nclass {cd['name']}(Variable):\n    locals().update(_CTX.class_attrs(_su.unhexjson({hexjson(cd)!r})))\n"
+        files = {"__init__.py": "", "vars.py": src}
+        for pn, items in params:
+            body = "description: generated\nvalues:\n"
+            for d, v in items:
+                val = "null" if v is None else (str(value_of_tok(v)) if not isinstance(value_of_tok(v), bool) else str(value_of_tok(v)).lower())
+                body += f"  {dt.date.fromordinal(d).isoformat()}:\n    value: {val}\n"
+            files[os.path.join("parameters", pn + ".yaml")] = body
+        _publish(pkg, files)
+        return pkg
+
+
+class Real(Ctx):
+    """the history replayed on the real API"""
+
+    def __init__(self, spec):
+        from openfisca_core import taxbenefitsystems
+        from openfisca_core.parameters import ParameterNode
+        from openfisca_core.tools import test_runner
+        Ctx.__init__(self, spec["fdefs"], spec["ents"])
+        self.spec = spec
+        test_runner._tax_benefit_system_cache.clear()      # keyed by id(baseline): never across cases
+        import logging
+        logging.getLogger("openfisca_core.taxbenefitsystems.tax_benefit_system").disabled = True   # refused extensions are logged
+        base = taxbenefitsystems.TaxBenefitSystem([self.protos[k] for k in spec["ents"]])
+        data = {n: {"values": {dt.date.fromordinal(d).isoformat(): {"value": None if v is None else value_of_tok(v)}
+                               for d, v in items}} for n, items in spec["params"]}
+        base.parameters = ParameterNode("", data=data)
+        for cd in spec["vars"]:
+            base.add_variable(self.make_class(cd))
+        self.systems = [base]
+
+    # -- operations
+
     def step(self, op) -> bool:
         """True when the call returned normally"""
         from openfisca_core import reforms
@@ -407,6 +536,18 @@ class Real:
                             real.apply_mod(self, m)
                 src = self.systems[op[1]]
                 self.systems.append(R(src))
+            elif op[0] == "T":
+                from openfisca_core.tools import test_runner
+                src = self.systems[op[1]]
+                paths = [self.reform_path(n, mods) for n, mods in op[2]]
+                exts = [self.ext_package(n, cds, ps) for n, cds, ps in op[3]]
+                try:
+                    t = test_runner._get_tax_benefit_system(src, paths, exts)
+                finally:
+                    for k in [k for k in sys.modules if _LOADED.match(k)]:
+                        del sys.modules[k]      # `add_variables_from_file` registers one module per file and system
+                if not any(t is x for x in self.systems):     # (a cache hit returns the system derived earlier)
+                    self.systems.append(t)
             else:
                 self.apply_mod(self.systems[op[1]], op[2])
             return True
